@@ -89,6 +89,7 @@ func (x *Exec) candidateClauses(fr *Frame, own *LoopContract) []Clause {
 	}
 	var out []Clause
 	have := map[string]bool{}
+	isOwn := false
 	push := func(c Clause) {
 		var parts []CExpr
 		splitConj(c.Expr, &parts)
@@ -98,13 +99,15 @@ func (x *Exec) candidateClauses(fr *Frame, own *LoopContract) []Clause {
 				continue
 			}
 			have[src] = true
-			out = append(out, Clause{Src: "inferred from: " + c.Src, Expr: p, File: c.File, Line: c.Line, Label: c.Label})
+			out = append(out, Clause{Src: "inferred from: " + c.Src, Expr: p, File: c.File, Line: c.Line, Label: c.Label, Own: isOwn})
 		}
 	}
 	if own != nil {
+		isOwn = true
 		for _, c := range own.Inv {
 			push(c)
 		}
+		isOwn = false
 	}
 	for _, p := range procs {
 		ords := make([]int, 0, len(p.Loops))
@@ -133,6 +136,12 @@ func (x *Exec) repairNames(env *CEnv, c Clause, st *State) []Clause {
 		return nil
 	}
 	bad := m[1]
+	if c.Own {
+		if x.unknownSeen == nil {
+			x.unknownSeen = map[string]bool{}
+		}
+		x.unknownSeen[bad] = true
+	}
 	names := map[string]bool{}
 	for o := range st.vars {
 		if o.Name() != "" && o.Name() != "_" && !strings.Contains(o.Name(), "#") {
